@@ -38,6 +38,7 @@ ImportExpected(c) ==
         ab   == IF c.layout = "bal" /\ c.meta THEN BalancedLayoutAsBuilt(P, c.meta) ELSE t
     IN  [kind |-> "import", layout |-> c.layout, w |-> c.w, lk |-> c.lk, sz |-> P.sz, meta |-> c.meta, L |-> Sum(P.sz),
          tree |-> t,
+         also |-> IF c.layout = "bal" THEN SetToSeq(BalancedAlso(P, c.meta)) ELSE <<>>,      \* other acceptable trees
          alt  |-> IF ab = t THEN <<>> ELSE <<[dev |-> "Dev_C07_RawRootDropsMeta", tree |-> ab]>>]
 AppendExpected(c) ==
     LET bsz == Sizes(c.n, c.short) nsz == Sizes(c.m, c.short2) IN
